@@ -17,7 +17,8 @@ pub type E = (i64, usize);
 
 macro_rules! family_imports {
     () => {
-        use super::{e_access, e_irv, e_shape, e_strict, index_range, params, Params, E};
+        use super::{e_access, e_irv, e_shape, e_strict, index_range, params, LeafRef, LeafShared, Params, E};
+        use easy_ml::tensors::Tensor;
         use crate::guarded;
         use crate::sx::*;
         use easy_ml::differentiation::RecordTensor;
@@ -30,11 +31,15 @@ macro_rules! family_imports {
 }
 pub mod fam_mut {
     family_imports!();
+    macro_rules! only_mut { ($($t:tt)*) => { $($t)* }; }
+    macro_rules! only_ref { ($($t:tt)*) => {}; }
     use easy_ml::tensors::views::TensorMut as Tr;
     include!("family.rs");
 }
 pub mod fam_ref {
     family_imports!();
+    macro_rules! only_mut { ($($t:tt)*) => {}; }
+    macro_rules! only_ref { ($($t:tt)*) => { $($t)* }; }
     use easy_ml::tensors::views::TensorRef as Tr;
     include!("family.rs");
 }
@@ -120,6 +125,74 @@ impl Drop for Arena {
             }
         }
     }
+}
+
+/// the leaf tensor itself (for the convenience constructors of `Tensor`)
+pub enum LeafRef {
+    D0(&'static mut Tensor<E, 0>),
+    D1(&'static mut Tensor<E, 1>),
+    D2(&'static mut Tensor<E, 2>),
+    D3(&'static mut Tensor<E, 3>),
+    D4(&'static mut Tensor<E, 4>),
+    D5(&'static mut Tensor<E, 5>),
+    D6(&'static mut Tensor<E, 6>),
+}
+pub enum LeafShared {
+    D0(&'static Tensor<E, 0>),
+    D1(&'static Tensor<E, 1>),
+    D2(&'static Tensor<E, 2>),
+    D3(&'static Tensor<E, 3>),
+    D4(&'static Tensor<E, 4>),
+    D5(&'static Tensor<E, 5>),
+    D6(&'static Tensor<E, 6>),
+}
+impl LeafRef {
+    pub fn shared(self) -> LeafShared {
+        match self {
+            LeafRef::D0(t) => LeafShared::D0(t),
+            LeafRef::D1(t) => LeafShared::D1(t),
+            LeafRef::D2(t) => LeafShared::D2(t),
+            LeafRef::D3(t) => LeafShared::D3(t),
+            LeafRef::D4(t) => LeafShared::D4(t),
+            LeafRef::D5(t) => LeafShared::D5(t),
+            LeafRef::D6(t) => LeafShared::D6(t),
+        }
+    }
+}
+
+macro_rules! leaf_ref_case {
+    ($arena:expr, $id:expr, $shape:expr; $($d:literal $L:ident $V:ident),*) => {
+        match $shape.len() {
+            $($d => {
+                let shape: [(&'static str, usize); $d] = shape_arr($shape);
+                let elements: usize = match shape.iter().try_fold(1usize, |a, x| a.checked_mul(x.1)) {
+                    Some(e) if e <= 100_000 => e,
+                    _ => return Err(bad_case()),
+                };
+                let data: Vec<E> = (0..elements as i64).map(|k| ($id * 1000 + k, 0usize)).collect();
+                match Tensor::try_from(shape, data) {
+                    Err(e) => Err(err(e_shape(&e))),
+                    Ok(t) => {
+                        let p = Box::into_raw(Box::new(t));
+                        $arena.leaves.push(Leaf::$L(p));
+                        let r: &'static mut Tensor<E, $d> = unsafe { &mut *p };
+                        Ok(LeafRef::$V(r))
+                    }
+                }
+            })*
+            _ => Err(bad_case()),
+        }
+    };
+}
+
+fn leaf_ref(t: &Sx, arena: &mut Arena) -> Result<LeafRef, Sx> {
+    let v = t.list().ok_or_else(bad_case)?;
+    if v.len() != 3 || v[0].i64() != Some(0) {
+        return Err(bad_case());
+    }
+    let id = v[1].i64().ok_or_else(bad_case)?;
+    let shape = v[2].pairs_usize().ok_or_else(bad_case)?;
+    leaf_ref_case!(arena, id, &shape; 0 T0 D0, 1 T1 D1, 2 T2 D2, 3 T3 D3, 4 T4 D4, 5 T5 D5, 6 T6 D6)
 }
 
 macro_rules! leaf_case {
@@ -322,6 +395,28 @@ pub fn build(t: &Sx, arena: &mut Arena) -> Result<AnyView, Sx> {
                 AnyView::M(m) => share_mut(m),
                 AnyView::R(r) => share_ref(r),
             }))
+        }
+        // convenience constructors: via 4 / 5 = `Tensor::xxx(&self)` / `Tensor::xxx_mut(&mut self)` on the
+        // leaf itself; via 3 = `TensorView::xxx(&self)`: the adaptor's source is `&S` (read-only family);
+        // via 1 / 2 = `TensorView::xxx_owned` / `xxx_mut`
+        (1..=8, 4) => {
+            let via = v[3].i64().ok_or_else(bad_case)?;
+            match via {
+                4 => fam_ref::conv_leaf(leaf_ref(&v[1], arena)?, tag, &v[2]).map(AnyView::R),
+                5 => fam_mut::conv_leaf(leaf_ref(&v[1], arena)?, tag, &v[2]).map(AnyView::M),
+                3 => {
+                    let shared = match build(&v[1], arena)? {
+                        AnyView::M(m) => share_mut(m),
+                        AnyView::R(r) => r,
+                    };
+                    fam_ref::apply_unary(shared, v).map(AnyView::R)
+                }
+                1 | 2 => match build(&v[1], arena)? {
+                    AnyView::M(m) => fam_mut::apply_unary(m, v).map(AnyView::M),
+                    AnyView::R(r) => fam_ref::apply_unary(r, v).map(AnyView::R),
+                },
+                _ => Err(bad_case()),
+            }
         }
         (1..=8, 3) | (11, 3) => match build(&v[1], arena)? {
             AnyView::M(m) => fam_mut::apply_unary(m, v).map(AnyView::M),
